@@ -4,6 +4,7 @@ use crate::nodes::*;
 use crate::process::{DefaultVisitor, NodeProcessor, NodeVisitor};
 use crate::rules::{
     Context, FlawlessRule, RuleConfiguration, RuleConfigurationError, RuleMetadata, RuleProperties,
+    RulePropertyValue,
 };
 
 pub const REMOVE_ATTRIBUTE_RULE_NAME: &str = "remove_attribute";
@@ -133,7 +134,21 @@ impl RuleConfiguration for RemoveAttribute {
     }
 
     fn serialize_to_properties(&self) -> RuleProperties {
-        RuleProperties::new()
+        let mut properties = RuleProperties::new();
+
+        if !self.r#match.is_empty() {
+            properties.insert(
+                "match".to_owned(),
+                RulePropertyValue::StringList(
+                    self.r#match
+                        .iter()
+                        .map(|pattern| pattern.as_str().to_owned())
+                        .collect(),
+                ),
+            );
+        }
+
+        properties
     }
 
     fn set_metadata(&mut self, metadata: RuleMetadata) {
